@@ -171,10 +171,12 @@ Qed.
 Theorem import_of_write_doc eid tid regs crs rooms sm ts :
   NoDup (map fst regs) -> NoDup (map fst crs) ->
   (forall r, In r regs -> in_u64 (fst r) /\ in_u64 (snd r)) -> (forall c, In c crs -> in_u64 (fst c)) ->
+  (* one room string per course (the Rust code indexes the list with the course position and would panic otherwise) *)
+  match rooms with Some (_, l) => List.length l = List.length crs | None => True end ->
   exists im, import_of_doc tid (write_doc eid tid regs crs rooms sm ts) = Some im /\
              im_event im = eid /\ im_summary im = sm /\ Permutation (im_regs im) regs /\ Permutation (im_courses im) (course_rows crs rooms).
 Proof.
-  intros NDr NDc Hr Hc. unfold write_doc, import_of_doc. rewrite !Z.eqb_refl. cbn [andb String.eqb]. 
+  intros NDr NDc Hr Hc _. unfold write_doc, import_of_doc. rewrite !Z.eqb_refl. cbn [andb String.eqb]. 
   replace (String.eqb "partial" "partial") with true by reflexivity. cbn [andb].
   (* registrations *)
   destruct (omapM_perm (imp_reg tid) (fun r : Z * Z => (zstr (fst r), reg_entry tid (snd r))) regs (doc_regs tid regs)) as (lr & Hlr & Pr).
@@ -194,4 +196,50 @@ Proof.
     - intros row Hin. assert (Hid : In (fst (fst row)) (map fst crs)) by (rewrite <- (course_rows_ids crs rooms); apply in_map_iff; exists row; split; [reflexivity|exact Hin]).
       apply in_map_iff in Hid. destruct Hid as (c & <- & Hcin). apply (Hc c Hcin). }
   rewrite Hlr, Hlc. cbn [obind]. eexists. split; [reflexivity|]. cbn. repeat split; assumption.
+Qed.
+
+(* ------------------------------------------------------------------ json_eqb decides equality (CorrDoc compares documents with it) *)
+Lemma json_eqb_eq : forall a b, json_eqb a b = true -> a = b.
+Proof.
+  fix IH 1. intros a b. destruct a as [| x | x | | x | x | l | l], b as [| y | y | | y | y | l' | l']; cbn [json_eqb]; intros H; try discriminate H; try reflexivity.
+  - apply Bool.eqb_prop in H. subst. reflexivity.
+  - apply Z.eqb_eq in H. subst. reflexivity.
+  - apply Z.eqb_eq in H. subst. reflexivity.
+  - apply String.eqb_eq in H. subst. reflexivity.
+  - f_equal. revert l' H. induction l as [|x t IHl]; intros [|y u] H; try discriminate H; [reflexivity|].
+    apply andb_true_iff in H. destruct H as [H1 H2]. f_equal; [apply IH; exact H1|apply IHl; exact H2].
+  - f_equal. revert l' H. induction l as [|[k x] t IHl]; intros [|[k' y] u] H; try discriminate H; [reflexivity|].
+    apply andb_true_iff in H. destruct H as [H12 H3]. apply andb_true_iff in H12. destruct H12 as [H1 H2]. apply String.eqb_eq in H1. subst k'.
+    f_equal; [f_equal; apply IH; exact H2|apply IHl; exact H3].
+Qed.
+Lemma json_eqb_refl : forall a, json_eqb a a = true.
+Proof.
+  fix IH 1. intros a. destruct a as [| x | x | | x | x | l | l]; cbn [json_eqb]; try reflexivity.
+  - apply Bool.eqb_reflx.
+  - apply Z.eqb_refl.
+  - apply Z.eqb_refl.
+  - apply String.eqb_refl.
+  - induction l as [|x t IHl]; [reflexivity|]. rewrite (IH x), IHl. reflexivity.
+  - induction l as [|[k x] t IHl]; [reflexivity|]. rewrite String.eqb_refl, (IH x), IHl. reflexivity.
+Qed.
+Theorem json_eqb_spec a b : json_eqb a b = true <-> a = b.
+Proof. split; [apply json_eqb_eq|intros ->; apply json_eqb_refl]. Qed.
+
+(* "only the selected track": read for ANOTHER track, the document of a non-empty assignment is refused *)
+Theorem import_other_track eid tid tid' regs crs rooms sm ts :
+  zstr tid' <> zstr tid -> regs <> [] -> NoDup (map fst regs) -> (forall r, In r regs -> in_u64 (fst r)) ->
+  import_of_doc tid' (write_doc eid tid regs crs rooms sm ts) = None.
+Proof.
+  intros Hne Hnil NDr Hr. unfold write_doc, import_of_doc. rewrite !Z.eqb_refl. cbn [andb].
+  replace (String.eqb "partial" "partial") with true by reflexivity. cbn [andb].
+  assert (P : Permutation (doc_regs tid regs) (map (fun r : Z * Z => (zstr (fst r), reg_entry tid (snd r))) regs)).
+  { unfold doc_regs. apply obj_items_perm. rewrite map_map. cbn [fst]. apply (nodup_zstr_keys fst regs NDr Hr). }
+  destruct (doc_regs tid regs) as [|kv t] eqn:E.
+  - apply Permutation_nil in P. destruct regs; [contradiction|discriminate].
+  - assert (Hin : In kv (map (fun r : Z * Z => (zstr (fst r), reg_entry tid (snd r))) regs)) by (apply (Permutation_in _ P); left; reflexivity).
+    apply in_map_iff in Hin. destruct Hin as ([rid cid] & <- & _). cbn [omapM fst snd].
+    assert (F : imp_reg tid' (zstr rid, reg_entry tid cid) = None).
+    { unfold imp_reg, reg_entry. cbn [fst snd]. destruct (parse_u64 (zstr rid)); [|reflexivity]. cbn [obind]. rewrite single_one. cbn [obind].
+      unfold single. destruct (String.eqb (zstr tid') (zstr tid)) eqn:Eq; [apply String.eqb_eq in Eq; contradiction|reflexivity]. }
+    rewrite F. reflexivity.
 Qed.
